@@ -11,8 +11,9 @@ def key(src):
     return hashlib.sha1(src.encode()).hexdigest()[:10]
 
 
-def family(tier, seed=None):
-    fam = [("tests", s) for s in bounded.harvest_tests()] + [("curated", s) for s in bounded.CURATED] + \
+def family(tier, seed=None, front=False):
+    """front=True adds bounded.FRONT_ONLY (programs for the front-end checks only: the synthesiser checks C02/C03/C06 key their findings by instance)"""
+    fam = [("tests", s) for s in bounded.harvest_tests()] + [("curated", s) for s in bounded.CURATED] + ([("curated", s) for s in bounded.FRONT_ONLY] if front else []) + \
           [("outside", s) for s in bounded.OUTSIDE] + [("generated", s) for s in bounded.generated(tier, common.SEED if seed is None else seed)]
     seen, out = set(), []
     for o, s in fam:
@@ -136,7 +137,7 @@ def _blame(r, mon):
 
 def jobs(tier, only=None):
     js = []
-    for origin, src in family(tier):
+    for origin, src in family(tier, front=True):
         for profile in ("default", "fast"):
             js.append((origin, src, profile))
     return js
